@@ -70,11 +70,11 @@ func runC01(c *core.Check) {
 	eraseSigs := map[string][]sig{
 		tShard + "goSendRecent": {{"acknowledged-recent", []core.Cond{core.T(tShard + "sendRecent(*")}}},
 		tShard + "sendHistoric": {
-			{"acknowledged-historic", []core.Cond{core.T(respType + ".IsSetDiscard(&respV3)"), core.T("(*sendSourceBucket3Compressed(*&respV3) == nil)")}},
+			{"acknowledged-historic", []core.Cond{core.T(respType + ".IsSetDiscard(&{tlstatshouse.SendSourceBucket3Response})"), core.T("(*sendSourceBucket3Compressed(*&{tlstatshouse.SendSourceBucket3Response}) == nil)")}},
 			{"unreadable-record", []core.Cond{core.F("(*GetBucket(*)#1 == nil)")}},
 		},
-		tShard + "checkOutOfWindow": {{"out-of-historic-window", []core.Cond{core.T("(cbd.time < (nowUnix - historicWindow))")}}},
-		tShard + "goEraseHistoric":  {{"disk-limit", []core.Cond{core.T("(* < *HistoricBucketsDataSizeDisk(s)#0)")}}},
+		tShard + "checkOutOfWindow": {{"out-of-historic-window", []core.Cond{core.T("({agent.compressedBucketData}.time < ({1:uint32} - {3:uint32}))")}}},
+		tShard + "goEraseHistoric":  {{"disk-limit", []core.Cond{core.T("(* < *HistoricBucketsDataSizeDisk(*)#0)")}}},
 	}
 	sites := core.Callers(all, tShard+"diskCacheEraseWithLog")
 	keys := core.Ordinals(sites)
@@ -109,7 +109,7 @@ func runC01(c *core.Check) {
 				c.Fail("C01-A3", key, r.Pos(), "sendRecent returns a non-constant value "+core.Expr(v)+": success must be the constant true under the acknowledgement guards")
 				continue
 			}
-			miss := core.HoldsAll(r.Block(), core.T(respType+".IsSetDiscard(&respV3)"), core.T("(*sendSourceBucket3Compressed(*&respV3) == nil)"))
+			miss := core.HoldsAll(r.Block(), core.T(respType+".IsSetDiscard(&{tlstatshouse.SendSourceBucket3Response})"), core.T("(*sendSourceBucket3Compressed(*&{tlstatshouse.SendSourceBucket3Response}) == nil)"))
 			c.Require(len(miss) == 0, "C01-A3", key, r.Pos(), "return true under err==nil && IsSetDiscard",
 				fmt.Sprintf("return true is not dominated by %v", miss))
 		}
@@ -166,7 +166,7 @@ func runC01(c *core.Check) {
 			if !core.IsReturn(in) {
 				return false
 			}
-			return len(core.HoldsAll(in.Block(), core.T("(cbd.id == 0)"), core.T("(* < (s.historicBucketsDataSize + builtin len(cbd.data)))"))) != 0
+			return len(core.HoldsAll(in.Block(), core.T("({agent.compressedBucketData}.id == 0)"), core.T("(* < ({0:*agent.Shard}.historicBucketsDataSize + builtin len({agent.compressedBucketData}.data)))"))) != 0
 		}
 		p := core.ReachFromEntryWithout(fn, dropRet, isStoreToField("internal/agent.Shard", "historicBucketsToSend"))
 		c.Require(p == nil, "C01-A5", tShard+"appendHistoricBucketsToSend/returns", fn.Pos(),
@@ -179,11 +179,11 @@ func runC01(c *core.Check) {
 	if fn := need(c, "C01-A6", tShard+"sendHistoric"); fn != nil {
 		exitSigs := []sig{
 			{"out-of-window", []core.Cond{core.T(tShard + "checkOutOfWindow(*")}},
-			{"no-disk-cache", []core.Cond{core.T("(s.agent.diskBucketCache == nil)")}},
+			{"no-disk-cache", []core.Cond{core.T("(*.agent.diskBucketCache == nil)")}},
 			{"disk-read-error", []core.Cond{core.F("(*GetBucket(*)#1 == nil)")}},
 			{"cancelled", []core.Cond{core.T("(select#0 == 0)")}},
 			{"cancelled-send", []core.Cond{core.T("errors.Is(*, *context.Canceled)")}},
-			{"acknowledged", []core.Cond{core.T(respType + ".IsSetDiscard(&respV3)"), core.T("(*sendSourceBucket3Compressed(*&respV3) == nil)")}},
+			{"acknowledged", []core.Cond{core.T(respType + ".IsSetDiscard(&{tlstatshouse.SendSourceBucket3Response})"), core.T("(*sendSourceBucket3Compressed(*&{tlstatshouse.SendSourceBucket3Response}) == nil)")}},
 		}
 		n := 0
 		for _, r := range core.Returns(fn) {
@@ -273,7 +273,7 @@ func runC01(c *core.Check) {
 			errV := vals[len(vals)-1]
 			key := fmt.Sprintf("internal/aggregator.sendToClickhouse/return#%d", i+1)
 			if isNilConst(errV) {
-				ok := core.HoldsAnyOf(r.Block(), core.T("(*.StatusCode == 200)")) || core.HoldsAnyOf(r.Block(), core.T(`(khAddr == "")`))
+				ok := core.HoldsAnyOf(r.Block(), core.T("(*.StatusCode == 200)")) || core.HoldsAnyOf(r.Block(), core.T(`({2:string} == "")`))
 				c.Require(ok, "C01-G3", key, r.Pos(), "nil error under HTTP 200 / local mode", "sendToClickhouse reports success without `StatusCode == 200` or `khAddr == \"\"`; facts: "+core.FactsString(r.Block()))
 			} else {
 				c.Require(nonNilErr(errV, r.Block()), "C01-G3", key, r.Pos(), "error return is non-nil", "cannot show that the returned error "+core.Expr(errV)+" is non-nil here (a nil would acknowledge a failed insert)")
@@ -284,13 +284,13 @@ func runC01(c *core.Check) {
 	// ---- G4 -------------------------------------------------------------------------
 	c.Rule("C01-G4", "K1", 9, "handleSendSourceBucket returns discard=true only for the enumerated rejections (agent too old, shard mismatch, historic in the future, beyond historic window, recent in the future); all other returns are false")
 	if fn := need(c, "C01-G4", "internal/aggregator.(*Aggregator).handleSendSourceBucket"); fn != nil {
-		hist := "*StatshouseSendSourceBucket3Bytes).IsSetHistoric(&args)"
+		hist := "*StatshouseSendSourceBucket3Bytes).IsSetHistoric(*)"
 		rej := []sig{
-			{"agent-too-old", []core.Cond{core.T("configR.DenyOldAgents"), core.T("(args.BuildCommitTs < *)")}},
+			{"agent-too-old", []core.Cond{core.T("*.DenyOldAgents"), core.T("(*.BuildCommitTs < *)")}},
 			{"shard-mismatch", []core.Cond{core.F("(*checkShardConfiguration(*)#1 == nil)")}},
-			{"historic-future", []core.Cond{core.T(hist), core.T("(a.recentBuckets[(builtin len(*) - 1)].time < phi(args.Time*)")}},
-			{"beyond-historic-window", []core.Cond{core.T(hist), core.T("(phi(args.Time*) < (a.recentBuckets[0].time - *HistoricWindow(*)))"), core.F("(a.recentBuckets[0].time < *HistoricWindow(*))")}},
-			{"recent-future", []core.Cond{core.F(hist), core.T("(a.recentBuckets[(builtin len(*) - 1)].time < phi(args.Time*)")}},
+			{"historic-future", []core.Cond{core.T(hist), core.T("(*.recentBuckets[(builtin len(*) - 1)].time < phi(*.Time*)")}},
+			{"beyond-historic-window", []core.Cond{core.T(hist), core.T("(phi(*.Time*) < (*.recentBuckets[0].time - *HistoricWindow(*)))"), core.F("(*.recentBuckets[0].time < *HistoricWindow(*))")}},
+			{"recent-future", []core.Cond{core.F(hist), core.T("(*.recentBuckets[(builtin len(*) - 1)].time < phi(*.Time*)")}},
 		}
 		n := 0
 		for _, r := range core.Returns(fn) {
